@@ -396,6 +396,13 @@ def veq(a, b):
         # both sets are given by explicit element lists (concrete mode): mutual inclusion
         parts = [B(b.contains(e)) for e in a.elements] + [B(a.contains(e)) for e in b.elements]
         return z3.And(parts) if parts else z3.BoolVal(True)
+    if isinstance(a, SetV) and isinstance(b, SetV) and (getattr(a, "is_empty", False) or getattr(b, "is_empty", False)):
+        other = b if getattr(a, "is_empty", False) else a
+        if getattr(other, "is_empty", False):
+            return z3.BoolVal(True)
+        xs = [fresh("sv") for _ in range(other.arity)]
+        v = IntV(xs[0]) if other.arity == 1 else TupV([IntV(x) for x in xs])
+        return z3.ForAll(xs, z3.Not(B(other.contains(v))))  # S == set()
     if isinstance(a, SetV) and isinstance(b, SetV):
         if a.arity != b.arity:
             raise Unsupported("comparison of sets of different element shapes")
